@@ -104,46 +104,7 @@ def run_program(ctx, cls_mk, width, depth, alphabet, nslots, prog, tmpdir, on_st
     """Run on the implementation.  Returns slots (with API-history terms and truth counters)."""
     slots = [Slot(cls_mk(), width, depth) for _ in range(nslots)]
     for i, op in enumerate(prog):
-        s = slots[op[1]]
-        kind = op[0]
-        if kind == "add":
-            _, _, k, v = op
-            s.sk.add(k, v)
-            s.truth[k] += v
-            s.hist = f"(AAdd {s.hist} {zk(k)} {v})"
-        elif kind == "update_list":
-            s.sk.update(list(op[2]))
-            for k in op[2]:
-                s.truth[k] += 1
-            s.hist = f"(AUpdateList {s.hist} [{'; '.join(zk(k) for k in op[2])}])"
-        elif kind == "update_dict":
-            s.sk.update(dict(op[2]))
-            for k, v in op[2]:
-                s.truth[k] += v
-            s.hist = f"(AUpdateDict {s.hist} [{'; '.join('(%s, %d)' % (zk(k), v) for k, v in op[2])}])"
-        elif kind == "ngram":
-            _, _, k, n = op
-            s.sk.add_ngram(k, n)
-            for w in windows(k, n):
-                s.truth[w] += 1
-            s.hist = f"(ANgram {s.hist} {zk(k)} {n})"
-        elif kind == "update_ngram":
-            _, _, ks, n = op
-            s.sk.update_ngram(list(ks), n)
-            for k in ks:
-                for w in windows(k, n):
-                    s.truth[w] += 1
-            s.hist = f"(AUpdateNgram {s.hist} [{'; '.join(zk(k) for k in ks)}] {n})"
-        elif kind == "merge":
-            o = slots[op[2]]
-            s.sk.merge(o.sk)
-            s.truth = s.truth + o.truth
-            s.hist = f"(AMerge {s.hist} {o.hist})"
-        elif kind == "saveload":
-            path = os.path.join(tmpdir, "sl.npz")
-            s.sk.save(path)
-            s.sk = type(s.sk).load(path)
-            s.hist = f"(ASaveLoad {s.hist})"
+        apply_op(slots[op[1]], op, slots, tmpdir)
         if on_step is not None:
             on_step(i, op, slots)
     return slots
@@ -205,3 +166,117 @@ def prog_json(prog):
                 o.append(x)
         out.append(o)
     return out
+
+
+class LinearSuite:
+    """Shared driver of the cms-linear correspondence suite: runs API-level programs on the real
+    CountMinLinear, evaluates a per-step predicate on the implementation, and finally evaluates the
+    Coq model (aeval) on the same histories comparing the complete final state of every slot."""
+
+    def __init__(self, ctx, what):
+        self.ctx = ctx
+        self.what = what
+        self.coq_cases = []
+        self.nviol = 0
+
+    def run_case(self, width, depth, alphabet, nslots, prog, pred=None, nontrivial=None):
+        """pred(i, op, slot, before, after, bm, universe) -> None | dict describing the failure.
+        before/after are snapshots (table, n_added, n_records, queries) of the slot the op modified."""
+        from sketchnu.countmin import CountMinLinear
+        ctx = self.ctx
+        universe = universe_of(alphabet, prog)
+        mk = lambda: CountMinLinear(width, depth)
+        bm = probe_buckets(mk, universe, depth)
+        st = {"bad": None, "before": None}
+
+        slots = [Slot(mk(), width, depth) for _ in range(nslots)]
+
+        def step(i, op):
+            s = slots[op[1]]
+            before = snapshot(s.sk, universe) if pred else None
+            other_before = snapshot(slots[op[2]].sk, universe) if (pred and op[0] == "merge") else None
+            apply_op(s, op, slots, ctx.dir)
+            if pred and st["bad"] is None:
+                after = snapshot(s.sk, universe)
+                extra = {"other_before": other_before,
+                         "other_after": snapshot(slots[op[2]].sk, universe) if op[0] == "merge" else None}
+                v = pred(i, op, s, before, after, bm, universe, extra)
+                if v:
+                    st["bad"] = (i, v)
+        for i, op in enumerate(prog):
+            step(i, op)
+        if st["bad"] and self.nviol < 3:
+            i, v = st["bad"]
+            ctx.violation({"width": width, "depth": depth, "program": prog_json(prog[:i + 1]), "failed": v,
+                           "bucket_map": {str(list(k)): c for k, c in bm.items()}}, self.what)
+            self.nviol += 1
+        he = [(s.hist, snapshot(s.sk, universe)) for s in slots]
+        self.coq_cases.append(coq_case(width, depth, bm, he))
+        collide = any(len({bm[k][r] for k in universe}) < len(universe) for r in range(depth))
+        merges = sum(1 for op in prog if op[0] == "merge")
+        nt = (collide or merges > 0) if nontrivial is None else nontrivial(prog, bm, universe)
+        ctx.case_seen((width, depth, tuple(map(repr, prog))), nt)
+        for op in prog:
+            ctx.count("op:" + op[0])
+        ctx.count("len<=5" if len(prog) <= 5 else "len<=15" if len(prog) <= 15 else "len>15")
+        ctx.count(f"width={width}" if width <= 4 else "width>4")
+        return slots, bm, universe
+
+    def finish(self, shard=60):
+        ctx = self.ctx
+        ctx.cov["traces_validated_against_impl"] = ctx.cov.get("traces_validated_against_impl", 0) + len(self.coq_cases)
+        bad, err = ctx.coq_bad_cases("lin", "Machine Harness CmsLinear CmsLinearHarness", "check_lin_case",
+                                     self.coq_cases, shard=shard)
+        if err:
+            ctx.broken.append("correspondence cms-linear could not be evaluated: " + err)
+        if bad:
+            i = sorted(bad)[0]
+            ctx.broken.append(f"correspondence cms-linear: model and implementation differ on {len(bad)} histories; "
+                              f"first case: {self.coq_cases[i][:1500]}")
+        if self.coq_cases:
+            ctx.sample(self.coq_cases[min(1, len(self.coq_cases) - 1)][:600])
+            ctx.sample(self.coq_cases[-1][:900])
+
+
+def apply_op(s, op, slots, tmpdir):
+    kind = op[0]
+    if kind == "add":
+        _, _, k, v = op
+        s.sk.add(k, v)
+        s.truth[k] += v
+        s.hist = f"(AAdd {s.hist} {zk(k)} {v})"
+    elif kind == "update_list":
+        s.sk.update(list(op[2]))
+        for k in op[2]:
+            s.truth[k] += 1
+        s.hist = f"(AUpdateList {s.hist} [{'; '.join(zk(k) for k in op[2])}])"
+    elif kind == "update_dict":
+        s.sk.update(dict(op[2]))
+        for k, v in op[2]:
+            s.truth[k] += v
+        s.hist = f"(AUpdateDict {s.hist} [{'; '.join('(%s, %d)' % (zk(k), v) for k, v in op[2])}])"
+    elif kind == "ngram":
+        _, _, k, n = op
+        s.sk.add_ngram(k, n)
+        for w in windows(k, n):
+            s.truth[w] += 1
+        s.hist = f"(ANgram {s.hist} {zk(k)} {n})"
+    elif kind == "update_ngram":
+        _, _, ks, n = op
+        s.sk.update_ngram(list(ks), n)
+        for k in ks:
+            for w in windows(k, n):
+                s.truth[w] += 1
+        s.hist = f"(AUpdateNgram {s.hist} [{'; '.join(zk(k) for k in ks)}] {n})"
+    elif kind == "merge":
+        o = slots[op[2]]
+        s.sk.merge(o.sk)
+        s.truth = s.truth + o.truth
+        s.hist = f"(AMerge {s.hist} {o.hist})"
+    elif kind == "saveload":
+        path = os.path.join(tmpdir, "sl.npz")
+        s.sk.save(path)
+        s.sk = type(s.sk).load(path)
+        s.hist = f"(ASaveLoad {s.hist})"
+    else:
+        raise ValueError(kind)
